@@ -310,9 +310,14 @@ package state
 
 // ---- stake claims (escrow account accumulator; balances are not touched) ----
 
+//@ ghost var GClaim map[staking.Address]map[staking.StakeClaim]bool
+// GClaim[a][c]: stake claim c is recorded in the escrow account of a.
+
 //@ func AddStakeClaim
 //@   trusted
-//@   modifies GGen, GActB, GActS, GDebB, GDebS, GAcctSum, GWrites, GNonce, abciAPI.GTreeW
+//@   modifies GGen, GActB, GActS, GDebB, GDebS, GAcctSum, GWrites, GNonce, abciAPI.GTreeW, GClaim
+//@   ensures err == nil ==> mapEq(GClaim, upd(old(GClaim), addr, upd(old(GClaim)[addr], claim, true)))
+//@   ensures err != nil ==> mapEq(GClaim, old(GClaim))
 //@   ensures abciAPI.OnlyTree(abciAPI.TreeOf(ctx))
 //@   ensures err != nil && !unavail(err) ==> GWrites == old(GWrites)
 //@   ensures err == nil ==> GAcctSum == old(GAcctSum) && mapEq(GGen, old(GGen)) && mapEq(GActB, old(GActB)) && mapEq(GActS, old(GActS)) && mapEq(GDebB, old(GDebB)) && mapEq(GDebS, old(GDebS)) && mapEq(GNonce, old(GNonce))
@@ -320,7 +325,9 @@ package state
 
 //@ func RemoveStakeClaim
 //@   trusted
-//@   modifies GGen, GActB, GActS, GDebB, GDebS, GAcctSum, GWrites, GNonce, abciAPI.GTreeW
+//@   modifies GGen, GActB, GActS, GDebB, GDebS, GAcctSum, GWrites, GNonce, abciAPI.GTreeW, GClaim
+//@   ensures err == nil ==> mapEq(GClaim, upd(old(GClaim), addr, upd(old(GClaim)[addr], claim, false)))
+//@   ensures err != nil ==> mapEq(GClaim, old(GClaim))
 //@   ensures abciAPI.OnlyTree(abciAPI.TreeOf(ctx))
 //@   ensures err != nil && !unavail(err) ==> GWrites == old(GWrites)
 //@   ensures err == nil ==> GAcctSum == old(GAcctSum) && mapEq(GGen, old(GGen)) && mapEq(GActB, old(GActB)) && mapEq(GActS, old(GActS)) && mapEq(GDebB, old(GDebB)) && mapEq(GDebS, old(GDebS)) && mapEq(GNonce, old(GNonce))
